@@ -28,7 +28,7 @@ ASSUMPTIONS = ['documented spellings = the (input, output) literals of chython/a
                'recorded gap (property text): hetero-arene tautomer fixing may pick among equivalent tautomers by match order, so '
                'tautomer fixing is on only for corpus molecules in the renumbering clause']
 
-OPS = ['standardize', 'canonicalize', 'fix_resonance', 'neutralize', 'standardize_charges', 'hydrogens', 'tautomers']
+OPS = ['standardize', 'canonicalize', 'canonicalize_kekule', 'fix_resonance', 'neutralize', 'standardize_charges', 'hydrogens', 'tautomers']
 
 
 def shards(tier, seed):
@@ -99,6 +99,8 @@ def apply(op, m, fix_tautomers):
         return m.standardize(fix_tautomers=fix_tautomers)
     if op == 'canonicalize':
         return m.canonicalize(fix_tautomers=fix_tautomers)
+    if op == 'canonicalize_kekule':
+        return m.canonicalize(fix_tautomers=fix_tautomers, keep_kekule=True)
     if op == 'fix_resonance':
         return m.fix_resonance()
     if op == 'neutralize':
@@ -298,6 +300,24 @@ def check_case(case, rec):
             if x.check_valence():
                 rec.fail('valence-after', f'{label}: valence error on atoms {x.check_valence()} of {str(x)!r}', sig=op)
                 return
+            if not any(b.order == 4 for *_, b in x.bonds()):
+                # stored hydrogen counts must be states of the element tables for the bonds the atom has now (check_valence only
+                # looks for undefined counts)
+                from ..oracles import valence_ref
+                for n, a in x.atoms():
+                    if a.implicit_hydrogens not in valence_ref.implicit_h_all(a, valence_ref.atom_neighbours(x, n)):
+                        rec.fail('valence-after', f'{label}: atom {n} ({a.atomic_symbol}, charge {a.charge}) of {str(x)!r} keeps '
+                                                  f'{a.implicit_hydrogens} hydrogens, not a state of the element tables for its bonds',
+                                 sig=f'{op}:stored-H')
+                        return
+            if op == 'canonicalize_kekule':
+                # the Kekule result must be a Kekule form of the default result
+                y0, z0 = m.copy(), x.copy()
+                ok, _ = rec.guard(op, lambda: (y0.canonicalize(fix_tautomers=ft), z0.thiele(fix_tautomers=False)))
+                if ok and molgen.snapshot(y0) != molgen.snapshot(z0) and canon_safe(y0) != canon_safe(z0) and not in_gap(y0):
+                    rec.fail('keep-kekule', f'{label}: canonicalize(keep_kekule=True) then thiele() gives {str(z0)!r}, canonicalize() '
+                                            f'gives {str(y0)!r}')
+                    return
         if changed:
             rec.nt((op, str(x)))
         # idempotence
@@ -305,13 +325,17 @@ def check_case(case, rec):
         ok, changed2 = rec.guard(op, apply, op, y, ft)
         if not ok:
             return
-        if 'named' in geminal and op in ('standardize', 'canonicalize') and molgen.snapshot(y) != molgen.snapshot(x):
+        if 'named' in geminal and op in ('standardize', 'canonicalize', 'canonicalize_kekule') and molgen.snapshot(y) != molgen.snapshot(x):
             # two matches of one rule share a specific pattern atom: the rule loop handles one of them per call by design
             # ("skip intersected groups"); claimed instead: repeated application reaches a fixed point
-            w = y.copy()
-            ok, _ = rec.guard(op, apply, op, w, ft)
-            if ok and molgen.snapshot(w) != molgen.snapshot(y) and canon_safe(w) != canon_safe(y):
-                rec.fail('idempotent', f'{label}: no fixed point after three applications: {str(x)!r} -> {str(y)!r} -> {str(w)!r}',
+            prev, w = y, y.copy()
+            for _k in range(len(geminal) + 2):  # one overlapping instance per call
+                ok, _ = rec.guard(op, apply, op, w, ft)
+                if not ok or molgen.snapshot(w) == molgen.snapshot(prev) or canon_safe(w) == canon_safe(prev):
+                    break
+                prev, w = w, w.copy()
+            else:
+                rec.fail('idempotent', f'{label}: no fixed point after {len(geminal) + 4} applications: {str(x)!r} -> ... -> {str(w)!r}',
                          sig='no-fixed-point')
                 return
             rec.count('overlapping matches sharing a named atom: fixed point after repeated application (idempotence of one call not claimed)')
